@@ -218,6 +218,13 @@ def judge(cases, use_model, positions=True):
     return probs
 
 
+def jstr(text):
+    """Janet string literal for a program text (ASCII; only backslash, quote and newline need escaping)"""
+    if not text.isascii() or "\r" in text or "\t" in text or "\0" in text:
+        return jdn(text)
+    return '"' + text.replace("\\", "\\\\").replace('"', '\\"').replace("\n", "\\n") + '"'
+
+
 ABORT_LIMIT = 6
 _ABORT = multiprocessing.get_context("fork").Value("i", 0)
 
@@ -233,7 +240,7 @@ def run_cases(all_cases, chunk=600, count_bad=True):
             for c in all_cases[lo:]:
                 c.status, c.actual = "ABORTED", ""
             return
-        res = run_batch("fast", DRIVER, [jdn(c.text) for c in sub], chunk=chunk, jobs=1, timeout=3)
+        res = run_batch("fast", DRIVER, [jstr(c.text) for c in sub], chunk=chunk, jobs=1, timeout=3)
         bad = 0
         for c, (st, text) in zip(sub, res):
             c.status, c.actual = st, text
